@@ -176,6 +176,8 @@ def run(pid, tier, cfg):
         h = hashlib.sha1(data).hexdigest()[:12]
         ok = True
         last = ""
+        if kind == "timeout" and "hang (replay does not terminate)" in seen:
+            continue  # one confirmed hang is reported; confirming each further timeout artifact costs minutes
         for _ in range(3 if kind != "timeout" else 2):
             # a hang must survive a replay with a generous limit: slow but terminating reads (work proportional to a
             # declared count) are load noise, not violations
